@@ -263,6 +263,12 @@ pub fn strategy() -> BoxedStrategy<Case> {
                 }
                 extra.push(k);
             }
+            // … or a copy of the receiver itself / a compound that contains one
+            if dup % 7 == 1 {
+                extra.push(d.clone());
+            } else if dup % 7 == 2 {
+                extra.insert(0, D::node(Product, vec![D::word("in"), d.clone()]));
+            }
             Case { d, how, new_name, extra }
         })
         .boxed()
@@ -315,6 +321,11 @@ pub fn small_scope() -> Vec<Case> {
             for how in 0..2 {
                 out.push(Case { d: r.clone(), how, new_name: "x".into(), extra: e.clone() });
             }
+        }
+        // the appended list refers to the receiver itself: a copy of it, and a compound around a copy
+        for how in 0..2 {
+            out.push(Case { d: r.clone(), how, new_name: "x".into(), extra: vec![r.clone()] });
+            out.push(Case { d: r.clone(), how, new_name: "x".into(), extra: vec![D::word("c"), D::node(Product, vec![r.clone(), a.clone()])] });
         }
     }
     out
